@@ -79,6 +79,13 @@ CLAIMS["C08"] = dict(ref="§5 C08", tech="TLA+ state machine of a page-table ent
     text="TLC explores the entry state machine at scaled width (every aligned address, every flag set, every sequence of set_addr/set_flags/set_unused) with ghost address/flags and checks independence, read-back, unused <=> zero, frame <=> present; on the real crate random entry programs log the raw u64 before/after each step and every getter, and a table is written at all 512 slots through each access path and read back through all paths and as raw little-endian bytes at offset 8i, with new/zero/is_empty/clone/default, size and alignment.",
     note=TB_PURE)
 
+CLAIMS["C14"] = dict(ref="§5 C14", tech="TLA+ state machine of the GDT (Gdt.tla) model-checked by TLC over all append sequences for capacities 1..6 (MC_Gdt: null first, order, capacity, refused append is a no-op, selector = first slot/GDT/DPL, limit); TLC trace validation (Trace_Gdt.tla) of append histories, from_raw_entries and the trapped lgdt operand on the real type for MAX in {1,2,3,8,9,8192}",
+    text="TLC explores every append sequence over user/system descriptors of all DPLs for capacities 1..6 and checks the table invariants and that selectors never overlap; the real GlobalDescriptorTable is driven with random sequences until and beyond capacity for MAX in {1,2,3,8,9,8192}; after each append TLC compares selector, length, limit and the tail of entries() with the state machine (a panicking append must leave the table unchanged), then the complete table, the clone, the lgdt operand (base = address of entries()[0], limit = 8*slots-1) and from_raw_entries incl. its refusal cases.",
+    note=TB_CPU)
+CLAIMS["C15"] = dict(ref="§5 C15", tech="TLA+ decoders of the architectural descriptor formats (Gdt.tla DecodeSys/DecodeUser/TssDescriptorOK/PresetOK; encode-decode round trip checked by TLC); TLC trace validation of tss_segment*, the predefined descriptors, dpl() and the TSS / descriptor-table-pointer layouts of the real crate",
+    text="The TSS descriptor returned for every pointer of the 64-bit boundary lattice and random pointers is decoded by the specification per the 16-byte system-descriptor format and must give base = pointer, limit 0x67, type 9, present, DPL 0, all reserved bits zero; predefined code/data descriptors and flag presets must decode to what their names state; dpl() = bits 45-46; field offsets, sizes, iomap_base = 0x68 and the raw bytes of a DescriptorTablePointer are compared with the manual's layout.",
+    note=TB_PURE.replace("the declarative lemmas in the specification", "the descriptor decoders in Gdt.tla"))
+
 NA_DEFAULT = "check under construction in this session (planned in DESIGN.md section 5); not yet claimed"
 
 m = {
